@@ -579,6 +579,9 @@ func ruleXResult(w *World, r *Report) {
 			continue
 		}
 		seenFn[f] = true
+		if w.irrelevantFn(f) {
+			continue // implements only XPath functions the property does not talk about
+		}
 		r.FuncsAnalysed[fnName(f)] = true
 		out := map[string]string{}
 		for _, b := range f.Blocks {
